@@ -1,14 +1,42 @@
 """Per-property texts for MANIFEST.json."""
 HOOK_COMMITS = []
 NOT_APPLICABLE = {}
-META = {
-    "C07": dict(
-        text=("Held on K generated executions: after every block report of PRNG traversal-shaped sequences (with replays and datastore reopen points) "
-              "the durable totals/indexes equal an independent running-sum model, and under 2-8 concurrent reporters the subscriber snapshot stream "
-              "shows each position counted at most once, conservation of the total and monotonicity. Exploration, not proof: the quantifier over all "
-              "sequences/interleavings is sampled."),
-        design_ref="DESIGN.md §2 C07",
-        note="Trusts: the recording datastore double, the 30-line running-sum model, synctest quiescence detection. Datastore Put assumed atomic.",
-        technique="runtime monitoring: reference-model oracle + conservation/at-most-once checker over recorded snapshot stream, race detector on",
-    ),
-}
+META = {}
+
+META["C07"] = dict(
+    text=("Held on K generated executions: after every block report of PRNG traversal-shaped sequences (with replays and datastore reopen points) "
+          "the durable totals/indexes equal an independent running-sum model, and under 2-8 concurrent reporters the subscriber snapshot stream "
+          "shows each position counted at most once, conservation of the total and monotonicity. Exploration, not proof: the quantifier over all "
+          "sequences/interleavings is sampled."),
+    design_ref="DESIGN.md §2 C07",
+    note="Trusts: the recording datastore double, the 30-line running-sum model, synctest quiescence detection. Datastore Put assumed atomic.",
+    technique="runtime monitoring: reference-model oracle + conservation/at-most-once checker over recorded snapshot stream, race detector on",
+
+)
+
+META["C12"] = dict(
+    text=("Held on K generated messages and hostile inputs: every constructor's output round-trips through all three wire forms with all observables intact, "
+          "its bytes equal an independent schema-derived DAG-CBOR encoding, key-permuted encodings decode identically, each message has exactly one kind, "
+          "and the decoders neither panic nor return unusable messages on mutated/garbage input. Sampled inputs, not all inputs."),
+    design_ref="DESIGN.md §2 C12",
+    note="Trusts internal/cborx (independent encoder/decoder) and the observable-extraction code; hostile IPLD nodes are built bounded, never decoded from hostile bytes.",
+    technique="runtime monitoring: differential oracle against an independent encoder + round-trip/totality assertions over generated and hostile inputs",
+
+)
+
+META["C06"] = dict(
+    text=("Crash points are enumerated exhaustively per generated history (every write boundary of the recorded write log is replayed into a fresh store and the "
+          "real library reopened on it); histories themselves are sampled. Held: every reopened state was current at some point, never goes backwards, "
+          "queries return durable states, cleanup finishes after restart."),
+    design_ref="DESIGN.md §2 C06",
+    note="Assumes atomic datastore Put; trusts the recording datastore double, the snapshot stream as the reference of 'states that were current', and internal/cborx for decoding stored records.",
+    technique="runtime monitoring with fault enumeration: write-log prefix replay (crash at every write boundary) against the recorded snapshot stream",
+)
+
+META["C13"] = dict(
+    text=("Held on K generated version-2 stores: the real migration path presents every field of every independently encoded record unchanged (paused statuses mapped), "
+          "refuses operations until migration finished, is idempotent across restarts, and announces readiness once with the outcome."),
+    design_ref="DESIGN.md §2 C13",
+    note="Trusts internal/cborx for the v2 layout and the record->view rendering used as the expected value.",
+    technique="runtime monitoring: differential oracle (independently encoded v2 records vs accessors after real migration), byte-diff of store across restarts",
+)
